@@ -369,6 +369,16 @@ def make_request(edit, rel, node, env, leaves, universe, opts, seed_expr, pick, 
         return (lambda: rel[a : a - 1 - pick % 2]), (ValueError, TypeError), f"rel[{a}:{a - 1 - pick % 2}]"
     if edit == "slice-stepped":
         step = 2 + pick % 2 if pick % 3 else -1
+        # every spelling of the bounds, including the ones that would otherwise select everything
+        shape = (pick // 6) % 5
+        if shape == 0:
+            return (lambda: rel[::step]), (ValueError, TypeError), f"rel[::{step}]"
+        if shape == 1:
+            return (lambda: rel[0::step]), (ValueError, TypeError), f"rel[0::{step}]"
+        if shape == 2:
+            return (lambda: rel[:3:step]), (ValueError, TypeError), f"rel[:3:{step}]"
+        if shape == 3:
+            return (lambda: rel[1::step]), (ValueError, TypeError), f"rel[1::{step}]"
         return (lambda: rel[0:4:step]), (ValueError, TypeError), f"rel[0:4:{step}]"
     if edit == "slice-not-a-slice":
         key = [3, "a", (0, 2), 1.5][pick % 4]
